@@ -97,8 +97,8 @@ func CheckC05(run *Run) {
 		for _, f := range r.Files {
 			for _, svc := range f.Services {
 				for _, md := range svc.Methods {
-					if md.In != md.Out || md.Verb != "POST" {
-						continue
+					if md.In != md.Out || md.Verb != "POST" || len(svc.Headers) > 0 || len(md.Headers) > 0 {
+						continue // bare POST echo routes only: routes demanding headers are C09's subject
 					}
 					desc := g.Built.MessageDesc(md.In)
 					if desc == nil {
